@@ -159,7 +159,7 @@ def gen_file(rng, strangers):
     """One generated file: (lines, mode, records in file order, order, contigs, typed, shape)."""
     typed = rng.random() < 0.5
     order = rng.choice(["Coordinate", "BarcodesAndCoordinate", "Coordinate", "BarcodesAndCoordinate", "Coordinate", "BarcodesAndCoordinate", "Unsorted", "Unknown", None])
-    contigs = rng.choice([None, ["1", "2", "10", "X"], ["chr1", "chr2", "chr10"], ["10", "2", "X", "1"], ["2", "10", "1", "X"]])
+    contigs = rng.choice([None, ["1", "2", "10", "X"], ["chr1", "chr2", "chr10"], ["10", "2", "X", "1"], ["2", "10", "1", "X"], SC.LONG, SC.LONG_CHR])
     chroms = contigs or rng.choice([["1", "2", "10", "X"], ["chr1", "chr2", "chr10"]])
     recs = gen_recs(rng, rng.randrange(0, 7), chroms)
     # records that differ from another one in exactly one component of the key (every component in turn)
@@ -260,7 +260,7 @@ def run(ctx):
     for _ in range(ctx.scale(500, 6000)):
         typed = rng.random() < 0.5
         order = rng.choice(["Coordinate", "BarcodesAndCoordinate", "Coordinate", "BarcodesAndCoordinate", "Unsorted", "Unknown", None])
-        contigs = rng.choice([None, ["1", "2", "10", "X"], ["chr1", "chr2", "chr10"], ["10", "2", "X", "1"]])
+        contigs = rng.choice([None, ["1", "2", "10", "X"], ["chr1", "chr2", "chr10"], ["10", "2", "X", "1"], SC.LONG, SC.LONG_CHR])
         chroms = contigs or rng.choice([["1", "2", "10", "X"], ["chr1", "chr2", "chr10"]])
         n = rng.randrange(0, 7)
         recs = gen_recs(rng, n, chroms)
